@@ -62,7 +62,14 @@ func vf07Seeds() ([]vf07Seed, error) {
 				vf07SeedErr = fmt.Errorf("seed %s: %v", x.name, err)
 				return
 			}
-			vf07SeedList = append(vf07SeedList, vf07Seed{x.name, vf07Record(uc.HandshakeState.Hello.Raw)})
+			raw := uc.HandshakeState.Hello.Raw
+			if len(raw) == 0 { // HelloGolang: crypto/tls marshals lazily
+				if raw, err = uc.HandshakeState.Hello.getPrivatePtr().marshal(); err != nil {
+					vf07SeedErr = fmt.Errorf("seed %s: marshal: %v", x.name, err)
+					return
+				}
+			}
+			vf07SeedList = append(vf07SeedList, vf07Seed{x.name, vf07Record(raw)})
 		}
 	})
 	return vf07SeedList, vf07SeedErr
